@@ -27,7 +27,27 @@ func GenC15Genome() *rapid.Generator[C15Genome] {
 	modular := genGenomeSpec(GenomeCfg{MinGenes: 1, Modules: true, Big: true, LargeNumbers: true})
 	return rapid.Custom(func(t *rapid.T) C15Genome {
 		if rapid.Bool().Draw(t, "yaml") {
-			return C15Genome{G: modular.Draw(t, "genome"), YAML: true}
+			g := modular.Draw(t, "genome")
+			if len(g.Modules) > 0 && rapid.IntRange(0, 3).Draw(t, "node added after the modules") == 0 {
+				// a hidden node whose id is larger than the control nodes' ids, as an add-node mutation of a modular genome
+				// creates it (the population's id counter starts behind the control nodes)
+				maxNode, maxInnov := maxIds(g)
+				var sensor, out int
+				for _, n := range g.Nodes {
+					if isSensorRole(n.Role) && sensor == 0 {
+						sensor = n.Id
+					}
+					if n.Role == roleOutput {
+						out = n.Id
+					}
+				}
+				if sensor != 0 && out != 0 && maxInnov < math.MaxInt64-4 && maxNode < math.MaxInt32-2 {
+					g.Nodes = append(g.Nodes, NodeSpec{Id: maxNode + 1, Role: roleHidden, Act: 4, Trait: g.Nodes[0].Trait})
+					g.Genes = append(g.Genes, GeneSpec{In: sensor, Out: maxNode + 1, W: 0.5, Innov: maxInnov + 1, Mut: 0.5, En: true, Trait: g.Genes[0].Trait},
+						GeneSpec{In: maxNode + 1, Out: out, W: -0.25, Innov: maxInnov + 2, Mut: -0.25, En: true, Trait: g.Genes[0].Trait})
+				}
+			}
+			return C15Genome{G: g, YAML: true}
 		}
 		return C15Genome{G: plain.Draw(t, "genome")}
 	})
@@ -43,6 +63,15 @@ func hasLongWeight(s GenomeSpec) bool {
 }
 
 func roundTripClasses(s GenomeSpec, rec *Rec) {
+	for _, m := range s.Modules {
+		for _, n := range s.Nodes {
+			if n.Id > m.Id {
+				rec.Class("ordinary node with a larger id than a control node")
+				break
+			}
+		}
+		break
+	}
 	for _, n := range s.Nodes {
 		if n.Id > 32767 {
 			rec.Class("node id above 32767")
@@ -213,6 +242,8 @@ type C15Pop struct {
 	Fitness   []float64    `json:"fitness"`
 	Opts      OptSpec      `json:"opts"`
 	BySpecies bool         `json:"by_species"`
+	// Winner: index+1 of the organism that is marked as the winner (the dump of a solved generation), 0 = none
+	Winner int `json:"winner,omitempty"`
 }
 
 func GenC15Pop() *rapid.Generator[C15Pop] {
@@ -225,6 +256,9 @@ func GenC15Pop() *rapid.Generator[C15Pop] {
 		for i := range c.Genomes {
 			c.Genomes[i].Id = i + rapid.IntRange(0, 1).Draw(t, "id base")*10
 			c.Fitness = append(c.Fitness, float64(rapid.IntRange(0, 20).Draw(t, "fitness")))
+		}
+		if rapid.IntRange(0, 2).Draw(t, "winner") == 0 {
+			c.Winner = 1 + rapid.IntRange(0, n-1).Draw(t, "winner index")
 		}
 		if !c.BySpecies && n > 1 && rapid.IntRange(0, 3).Draw(t, "shared genome ids") == 0 {
 			// genome ids are plain numbers, not keys: organisms collected from several runs, or copies of one genome,
@@ -244,6 +278,10 @@ func CheckC15Pop(c C15Pop, rec *Rec) error {
 	var orgs []*genetics.Organism
 	for i, g := range c.Genomes {
 		o, _ := genetics.NewOrganism(c.Fitness[i], g.Build(), 1)
+		if c.Winner == i+1 {
+			o.IsWinner = true
+			rec.Class("population with a winner organism")
+		}
 		orgs = append(orgs, o)
 	}
 	pop.VerifAddOrganisms(orgs)
